@@ -148,9 +148,25 @@ Bind5 == {B4(OneAny("pk", d), <<v>>, NoKw(OneAny("pk", d)), NoKw(OneAny("pk", d)
     \cup {B4(OneAny(k, d), <<>>, [nm \in {"a"} |-> v], NoKw(OneAny(k, d))) : k \in {"pk", "ko"}, d \in {NoVal, [t |-> "int", v |-> "5"]}, v \in StructVals}
     \cup {B4(OneAny(k, v), <<>>, NoKw(OneAny(k, v)), NoKw(OneAny(k, v))) : k \in {"pk", "ko"}, v \in StructVals}
 
+\* SEVERAL with_values calls on one task builder: the first (args, kw) and then `calls`, each with positional values and/or a
+\* keyword for `c`, re-binding positions and names already bound - partly (one position of two) or fully; the later call
+\* wins, per position and per name
+ThreeParams == <<[name |-> "a", kind |-> "pk", ann |-> "", dflt |-> NoVal], [name |-> "b", kind |-> "pk", ann |-> "", dflt |-> NoVal],
+                 [name |-> "c", kind |-> "ko", ann |-> "", dflt |-> NoVal]>>
+IV(n) == [t |-> "int", v |-> n]
+KwC(v) == [nm \in {"a", "b", "c"} |-> IF nm = "c" THEN v ELSE NoVal]
+Call(args, kwc) == [args |-> args, kw |-> KwC(kwc)]
+SecondCalls == {Call(a, k) : a \in {<<>>, <<IV("99")>>, <<IV("99"), IV("98")>>}, k \in {NoVal, [t |-> "str", v |-> "k2"]}} \ {Call(<<>>, NoVal)}
+ThirdCalls == {Call(<<IV("77")>>, NoVal), Call(<<IV("77"), IV("76")>>, NoVal), Call(<<>>, [t |-> "str", v |-> "k3"]), Call(<<IV("77")>>, [t |-> "str", v |-> "k3"])}
+Bind6 == {[kind |-> "bind", params |-> ThreeParams, decor |-> NoDecor, ret |-> "", args |-> a1, kw |-> KwC(k1), kw2 |-> KwC(NoVal),
+           split |-> FALSE, calls |-> cs]
+            : a1 \in {<<IV("10")>>, <<IV("10"), IV("20")>>}, k1 \in {NoVal, [t |-> "str", v |-> "k1"]},
+              cs \in {<<c2>> : c2 \in SecondCalls} \cup {<<c2, c3>> : c2 \in SecondCalls, c3 \in ThirdCalls}}
+
 KwJson(kw) == SetToSeq({<<nm, kw[nm]>> : nm \in {x \in DOMAIN kw : kw[x] # NoVal}})
 BindJson(c) == [kind |-> "bind", params |-> c.params, decor |-> c.decor, ret |-> c.ret, args |-> c.args, split |-> c.split,
-                kw |-> KwJson(c.kw), kw2 |-> IF "kw2" \in DOMAIN c THEN KwJson(c.kw2) ELSE <<>>]
+                kw |-> KwJson(c.kw), kw2 |-> IF "kw2" \in DOMAIN c THEN KwJson(c.kw2) ELSE <<>>,
+                calls |-> IF "calls" \in DOMAIN c THEN [i \in DOMAIN c.calls |-> [args |-> c.calls[i].args, kw |-> KwJson(c.calls[i].kw)]] ELSE <<>>]
 
 \* ---------------------------------------------------------------- reference semantics
 SetOf(s) == {s[i] : i \in DOMAIN s}
@@ -236,14 +252,22 @@ PostEdge(c, r) ==
 
 TypeOK(val, ann) == ann = "" \/ val.t = ann
 PostBind(c, r) ==
-  LET given2 == Pairs(c.kw2)                                    \* a second with_values call overrides the first
-      given == given2 \cup {p \in Pairs(c.kw) : p[1] \notin {q[1] : q \in given2}}
-      givenNames == {p[1] : p \in given}
-      wantPs == {<<ToString(i - 1), c.args[i]>> : i \in DOMAIN c.args}
+  LET \* all with_values calls in order: (args, kw), then kw2 if it binds anything, then `calls`; the later call wins
+      all == <<[args |-> c.args, kw |-> Pairs(c.kw)]>>
+             \o (IF Len(c.kw2) > 0 THEN <<[args |-> <<>>, kw |-> Pairs(c.kw2)]>> ELSE <<>>)
+             \o [i \in DOMAIN c.calls |-> [args |-> c.calls[i].args, kw |-> Pairs(c.calls[i].kw)]]
+      LastWith(P(_)) == CHOOSE k \in DOMAIN all : P(k) /\ \A m \in DOMAIN all : P(m) => m <= k
+      npos == CHOOSE n \in 0..3 : (\E k \in DOMAIN all : Len(all[k].args) = n) /\ \A k \in DOMAIN all : Len(all[k].args) <= n
+      HasPos(i, k) == Len(all[k].args) >= i
+      wantPs == {<<ToString(i - 1), all[LastWith(LAMBDA k : HasPos(i, k))].args[i]>> : i \in 1..npos}
+      Names(k) == {p[1] : p \in all[k].kw}
+      allNames == UNION {Names(k) : k \in DOMAIN all}
+      given == {CHOOSE p \in all[LastWith(LAMBDA k : nm \in Names(k))].kw : p[1] = nm : nm \in allNames}
+      givenNames == allNames
       dfl == Defaults(c.params)
       kwAfter == given \cup {p \in dfl : p[1] \notin givenNames}          \* defaults overridden by the given keywords
       badStatic == \E p \in kwAfter : \E i \in DOMAIN c.params : c.params[i].name = p[1] /\ ~TypeOK(p[2], c.params[i].ann)
-      placed(t) == (IF Pairs(t.ps) = wantPs /\ Len(t.ps) = Len(c.args) THEN {} ELSE {"positional_values_misplaced"})
+      placed(t) == (IF Pairs(t.ps) = wantPs /\ Len(t.ps) = npos THEN {} ELSE {"positional_values_misplaced"})
               \cup (IF given \subseteq Pairs(t.kw) /\ Pairs(t.kw) \subseteq kwAfter /\ Len(t.kw) = Cardinality(Pairs(t.kw))
                     THEN {} ELSE {"keyword_values_misplaced"})
       schema(t) == IF Pairs(t.ins) = InSchema(c.params) /\ Pairs(t.outs) = OutSchema(c.ret) THEN {} ELSE {"schema_differs_from_signature"}
@@ -268,7 +292,7 @@ Post(c, r) == IF c.kind = "bind" THEN PostBind(c, r) ELSE PostEdge(c, r)
 Generate == IF IOEnv.CASES_FILE = "none" THEN TRUE ELSE
             LET b == SetToSeq(Bind)
                   b3 == SetToSeq(Bind3)
-                  b4 == SetToSeq(Bind4 \cup Bind5)
+                  b4 == SetToSeq(Bind4 \cup Bind5) \o SetToSeq(Bind6)
                   s == [i \in 1..Len(b) |-> BindJson(b[i])] \o [i \in 1..Len(b3) |-> BindJson(b3[i])] \o [i \in 1..Len(b4) |-> BindJson(b4[i])]
                        \o SetToSeq(Edge1) \o SetToSeq(Edge2) \o SetToSeq(Edge3) \o SetToSeq(Edge4)
               IN JsonSerialize(IOEnv.CASES_FILE, s)
